@@ -181,8 +181,8 @@ def orFirst (first : Option Res) (r : Option Res) : Option Res :=
 
 /-- the drain loop with `first_result`; fuel bounds the number of events processed -/
 def drainLoop (m : Machine) : Nat → Option Res → EM Res
-  | 0, _ => fun cfg => match cfg.queue with
-    | [] => (cfg, .ok .none)
+  | 0, first => fun cfg => match cfg.queue with
+    | [] => (cfg, .ok (first.getD .none))
     | _ => (cfg, .error .fuel)
   | n + 1, first => fun cfg =>
     match cfg.queue with
